@@ -161,16 +161,17 @@ func callReader(reader string, data []byte) (o outcome) {
 }
 
 type presentation struct {
-	reader string
-	data   []byte
-	expect string // accept | reject | "" (only the scenario-independent oracles)
-	sig    string // failure signature when the expectation is not met
-	desc   string
-	want   interface{} // ingestFields / peerFields expected on accept (nil: not compared)
-	fam    string      // Coq family ("" = oracle only)
-	replay *replayT
-	kind   string // distribution key
+	reader     string
+	data       []byte
+	expect     string // accept | reject | "" (only the scenario-independent oracles)
+	sig        string // failure signature when the expectation is not met
+	desc       string
+	want       interface{} // ingestFields / peerFields expected on accept (nil: not compared)
+	fam        string      // Coq family ("" = oracle only)
+	replay     *replayT
+	kind       string // distribution key
 	nontrivKey string
+	shrink     func() *replayT // minimise a constructor input whose fields do not come back
 }
 
 func present(c *vlib.Ctx, p presentation) outcome {
@@ -262,12 +263,15 @@ func present(c *vlib.Ctx, p presentation) outcome {
 			case ingestFields:
 				w.Seq = o.ingest.Seq // the constructor stamps the sequence number
 				if !w.equal(o.ingest) {
-					c.Fail(p.reader+":fields-changed", fmt.Sprintf("fields read back differ from the fields given: %+v vs %+v (%s)", o.ingest, w, p.desc), rp)
+					if p.shrink != nil {
+						rp = p.shrink()
+					}
+					c.Fail(p.reader+":fields-changed:"+diffIngest(w, o.ingest), fmt.Sprintf("field %s read back differs from the value given (%s)", diffIngest(w, o.ingest), p.desc), rp)
 				}
 			case peerFields:
 				w.Seq = o.peer.Seq
 				if !w.equal(o.peer) {
-					c.Fail(p.reader+":fields-changed", fmt.Sprintf("fields read back differ from the fields given: %+v vs %+v (%s)", o.peer, w, p.desc), rp)
+					c.Fail(p.reader+":fields-changed", fmt.Sprintf("peer record read back differs from the values given (%s)", p.desc), rp)
 				}
 			}
 		}
@@ -293,11 +297,11 @@ func sample(c *vlib.Ctx, p presentation, o outcome) {
 // constructors
 
 type makeIn struct {
-	reader   string
-	signer   *keypool.Identity
-	provider peer.ID
+	reader      string
+	signer      *keypool.Identity
+	provider    peer.ID
 	mh, ctx, md []byte
-	addrs    []string
+	addrs       []string
 }
 
 func (m makeIn) replay() *replayT {
@@ -393,6 +397,7 @@ func makeAndRead(c *vlib.Ctx, m makeIn, kind string) []byte {
 		p.expect, p.sig = "accept", m.reader+":own-request-rejected:"+m.signer.Type
 		if m.reader == rdIngest {
 			p.want = ingestFields{MH: m.mh, Provider: m.provider, Ctx: m.ctx, MD: m.md, Addrs: m.addrs}
+			p.shrink = func() *replayT { return shrinkIngest(m).replay() }
 		} else {
 			w := peerFields{Peer: m.provider}
 			for _, a := range m.addrs {
@@ -433,7 +438,15 @@ func runReplay(c *vlib.Ctx, r replayT) {
 		if err != nil {
 			panic(err)
 		}
-		signer := pool.Add(r.SignerType, k)
+		var signer *keypool.Identity
+		for _, it := range pool.Ids {
+			if it.Pub.Equals(k.GetPublic()) {
+				signer = it
+			}
+		}
+		if signer == nil {
+			signer = pool.Add(r.SignerType, k)
+		}
 		prov, err := peer.Decode(r.Provider)
 		if err != nil && r.Provider != "" {
 			panic(err)
@@ -456,3 +469,72 @@ func runReplay(c *vlib.Ctx, r replayT) {
 	}
 }
 
+func diffIngest(a, b ingestFields) string {
+	switch {
+	case string(a.MH) != string(b.MH):
+		return "Multihash"
+	case a.Provider != b.Provider:
+		return "ProviderID"
+	case string(a.Ctx) != string(b.Ctx):
+		return "ContextID"
+	case string(a.MD) != string(b.MD):
+		return "Metadata"
+	}
+	return "Addrs"
+}
+
+// roundTripsIngest: constructor then reader give back the fields (no cases, no oracles)
+func roundTripsIngest(m makeIn) bool {
+	data, err := callMake(m)
+	if err != nil {
+		return false
+	}
+	o := callReader(rdIngest, data)
+	if o.kind != "ok" {
+		return false
+	}
+	w := ingestFields{MH: m.mh, Provider: m.provider, Ctx: m.ctx, MD: m.md, Addrs: m.addrs, Seq: o.ingest.Seq}
+	return w.equal(o.ingest)
+}
+
+// shrinkIngest minimises a constructor input that does not round-trip: drop whole
+// fields, then shorten the remaining ones, as long as the failure persists.
+func shrinkIngest(m makeIn) makeIn {
+	for changed := true; changed; {
+		changed = false
+		try := func(n makeIn) {
+			if !changed && !roundTripsIngest(n) {
+				m, changed = n, true
+			}
+		}
+		if len(m.mh) > 0 {
+			n := m
+			n.mh = nil
+			try(n)
+		}
+		if len(m.ctx) > 1 {
+			n := m
+			n.ctx = m.ctx[:len(m.ctx)/2]
+			try(n)
+		} else if len(m.ctx) == 1 {
+			n := m
+			n.ctx = nil
+			try(n)
+		}
+		if len(m.md) > 1 {
+			n := m
+			n.md = m.md[:len(m.md)/2]
+			try(n)
+		} else if len(m.md) == 1 {
+			n := m
+			n.md = nil
+			try(n)
+		}
+		if len(m.addrs) > 0 {
+			n := m
+			n.addrs = m.addrs[:len(m.addrs)-1]
+			try(n)
+		}
+	}
+	return m
+}
